@@ -230,7 +230,9 @@ func (r *StatusReporter) Report(ctx context.Context) (*MigrateStatus, error) {
 		if err := rrw.Migrate(ctx); err != nil {
 			return nil, err
 		}
-		ex, err := migrate.NewExecutor(r.Client.Driver, r.Dir, rrw)
+		// Reporting executes nothing: an empty revision table in a database that holds other
+		// resources is reported like a missing table (above), not refused as "not clean".
+		ex, err := migrate.NewExecutor(r.Client.Driver, r.Dir, rrw, migrate.WithAllowDirty(true))
 		if err != nil {
 			return nil, err
 		}
